@@ -189,10 +189,13 @@ class GraphQLError(Exception):
             loc = node_locations[0]
             if loc.source:  # pragma: no branch
                 self.source = loc.source
+        given_positions = positions
         if not positions and node_locations:
             positions = [loc.start for loc in node_locations]
         self.positions = positions or None
-        if positions and source:
+        # Only positions that were given belong to the given source; positions
+        # taken from the blame nodes are positions in the sources of the nodes.
+        if given_positions and source:
             locations: list[SourceLocation] | None = [
                 source.get_location(pos) for pos in positions
             ]
